@@ -1,6 +1,8 @@
 SPEC = {
     "corr": [{"kind": "json", "quick": 10000, "thorough": 1000000},
-             {"kind": "nf5", "quick": 3000, "thorough": 200000}],
+             {"kind": "nf5", "quick": 3000, "thorough": 200000},
+             # what is actually handed to the message queue by the real workers (1..64 of them): every payload must be the solo JSON of its datagram
+             {"kind": "pipeline", "quick": 48, "thorough": 1600, "runner": {"pkg": "./vflow", "test": "TestVerifPipeline", "race": False}}],
     "rule": "json: IPFIX / NetFlow v9 messages built directly from typed values (every Interpret result kind x content "
             "class: plain / quotes+backslashes / controls / HTML / multi-byte and invalid UTF-8 / random octets; NaN, +-Inf, "
             "64-bit extremes; IPv4, IPv6, v4-mapped and odd-length addresses), marshalled by the real JSONMarshal, compared "
